@@ -129,7 +129,7 @@ const KEYS: [&str; 8] = ["a", "b", "k", "n", "tag", "x", "y", "zz"];
 // The last three hold characters whose code point ends in the byte of a
 // structural ASCII character (`{ } " \ $ newline`): U+017B, U+017D, U+0122,
 // U+015C, U+0124, U+010A, U+1F37B, U+1F37D.
-const WORDS: [&str; 16] = ["", "a", "b", "ab", "hello", "x y", "é", "日本", "🙂!", "line\nbreak", "q\"uote", "back\\slash", "$5 ${k}", "ŻaŽ", "ĢŜĤĊ", "🍻🍽"];
+const WORDS: [&str; 17] = ["", "a", "b", "ab", "hello", "x y", "é", "日本", "🙂!", "line\nbreak", "q\"uote", "back\\slash", "$5 ${k}", "ŻaŽ", "ĢŜĤĊ", "🍻🍽", "cr\r\nlf"];
 
 // Integer operands for arithmetic beyond the classic boundaries: 32-bit
 // magnitudes (whose products straddle 2^63), small multipliers, random widths.
@@ -318,7 +318,7 @@ impl Gen<'_> {
         let latin = self.cfg.hex_latin && self.t.chance(1, 3);
         let each = |cs: &mut Vec<(char, Spell)>| {
             for c in cs.iter_mut() {
-                if c.0 == '\n' && raw_nl {
+                if (c.0 == '\n' || c.0 == '\r') && raw_nl {
                     c.1 = Spell::Raw;
                 }
                 if latin && (0x80..0x100).contains(&(c.0 as u32)) {
